@@ -141,8 +141,27 @@ class PolicyOracle:
                 continue
             transport = any(p['type'] == R.P_NOTIFY and p['ntype'] == R.N_USE_TRANSPORT_MODE for p in m['payloads'])
             self._r('offers_judged')
-            ok = any((e['mode'] == 'transport') == transport and all(ts_subset(x, ent_ts(e, 'my')) for x in tsi['selectors'])
-                     and all(ts_subset(y, ent_ts(e, 'peer')) for y in tsr['selectors']) for e in conn['protect'])
+            inside = [e for e in conn['protect'] if (e['mode'] == 'transport') == transport and all(ts_subset(x, ent_ts(e, 'my')) for x in tsi['selectors'])
+                      and all(ts_subset(y, ent_ts(e, 'peer')) for y in tsr['selectors'])]
+            ok = bool(inside)
+            sa_p = next((p for p in m['payloads'] if p['type'] == R.P_SA), None)
+            if ok and sa_p is not None and sa_p['proposals']:
+                # ... and the suite offered is that entry's: protocol, every configured algorithm, nothing else (a DH transform may or may not
+                # be present in IKE_AUTH, see DESIGN 12.5)
+                def suite_of(e, with_dh):
+                    t = {(1, i, k) for (i, k) in e['encr']} | {(3, i, None) for i in e['integ']} | {(5, 0, None)}
+                    if with_dh:
+                        t |= {(4, i, None) for i in e['dh']}
+                    return (R.PROTO_ESP if e['ipsec_proto'] == 'esp' else R.PROTO_AH), t
+                pr = sa_p['proposals'][0]
+                got = (pr['proto'], {(t['type'], t['id'], t['keylen']) for t in pr['transforms']})
+                if len(sa_p['proposals']) != 1 or not any(got == suite_of(e, d) for e in inside
+                                                          for d in ((True, False) if m['h']['exch'] == R.IKE_AUTH else (True,))):
+                    return self.viol('offered_suite_not_the_entrys', {'exchange': 'IKE_AUTH' if m['h']['exch'] == R.IKE_AUTH else 'CREATE_CHILD_SA'},
+                                     f'{m["sender"]} offered protocol {got[0]} with transforms {sorted(got[1], key=str)} for selectors that lie in '
+                                     f'{len(inside)} protect entr{"y" if len(inside) == 1 else "ies"} whose suite is '
+                                     f'{[(suite_of(e, True)[0], sorted(suite_of(e, True)[1], key=str)) for e in inside][:2]}')
+                self._r('offered_suite_checked')
             if not ok:
                 from sim.wiretap import ts_set
                 rekey = any(p['type'] == R.P_NOTIFY and p['ntype'] == R.N_REKEY_SA for p in m['payloads'])
